@@ -599,11 +599,17 @@ Proof.
   constructor; try reflexivity. vm_compute. do 4 eexists. split; reflexivity.
 Qed.
 
-Lemma ex_csr_builds : exists tbs a f, build_csr_tbs ex_csr = Some (tbs, a) /\
-  parse_csr (emit (seq [tbs; a; Prim 0 3 [0; 1; 2]])) = Some f /\
-  cf_ips f = [[10; 1; 2; 3]] /\ length (cf_exts f) = 2%nat /\
-  existsb ext_crit (cf_exts f) = true.
-Proof. vm_compute. do 3 eexists. repeat split. Qed.
+Definition ex_csr_check : bool :=
+  match build_csr_tbs ex_csr with
+  | Some (tbs, a) =>
+      match parse_csr (emit (seq [tbs; a; Prim 0 3 [0; 1; 2]])) with
+      | Some f => list_eqb bytes_eqb (cf_ips f) [[10; 1; 2; 3]] && (length (cf_exts f) =? 2)%nat && existsb ext_crit (cf_exts f)
+      | None => false
+      end
+  | None => false
+  end.
+Lemma ex_csr_builds : ex_csr_check = true.
+Proof. vm_compute. reflexivity. Qed.
 
 Definition ex_rl : rl_input :=
   mk_rl_input KEd 0 ex_name [1; 2; 3; 4] true 5%Z (Build_civil 2026 1 2 3 4 5) (Build_civil 2050 2 2 3 4 5)
@@ -615,11 +621,19 @@ Definition ex_rl : rl_input :=
 Lemma ex_rl_wf : wf_rl ex_rl.
 Proof. constructor; reflexivity. Qed.
 
-Lemma ex_rl_builds : exists tbs a f, build_rl_tbs ex_rl = Some (tbs, a) /\
-  parse_rl (emit (seq [tbs; a; Prim 0 3 [0; 1; 2]])) = Some f /\
-  map (fun e : rl_pentry => snd (fst e)) (rf_revoked f) = [Some 1%Z; None; None] /\
-  rf_aki f = [1; 2; 3; 4] /\ rf_number f = Some 5%Z.
-Proof. vm_compute. do 3 eexists. repeat split. Qed.
+Definition ex_rl_check : bool :=
+  match build_rl_tbs ex_rl with
+  | Some (tbs, a) =>
+      match parse_rl (emit (seq [tbs; a; Prim 0 3 [0; 1; 2]])) with
+      | Some f =>
+          list_eqb (option_eqb Z.eqb) (map (fun e : rl_pentry => snd (fst e)) (rf_revoked f)) [Some 1%Z; None; None] &&
+          bytes_eqb (rf_aki f) [1; 2; 3; 4] && option_eqb Z.eqb (rf_number f) (Some 5%Z)
+      | None => false
+      end
+  | None => false
+  end.
+Lemma ex_rl_builds : ex_rl_check = true.
+Proof. vm_compute. reflexivity. Qed.
 
 Definition ex_crl : crl_input :=
   mk_crl_input (KEC 384) ex_name [9; 9] (Build_civil 2026 1 2 3 4 5) (Build_civil 2050 2 2 3 4 5)
@@ -628,7 +642,14 @@ Definition ex_crl : crl_input :=
 Lemma ex_crl_wf : wf_crl ex_crl.
 Proof. constructor; reflexivity. Qed.
 
-Lemma ex_crl_builds : exists tbs a f, build_crl_tbs ex_crl = Some (tbs, a) /\
-  parse_crl (emit (seq [tbs; a; Prim 0 3 [0; 1; 2]])) = Some f /\
-  length (lf_revoked f) = 2%nat /\ lf_sigalg f = 11 /\ length (lf_exts f) = 1%nat.
-Proof. vm_compute. do 3 eexists. repeat split. Qed.
+Definition ex_crl_check : bool :=
+  match build_crl_tbs ex_crl with
+  | Some (tbs, a) =>
+      match parse_crl (emit (seq [tbs; a; Prim 0 3 [0; 1; 2]])) with
+      | Some f => (length (lf_revoked f) =? 2)%nat && (lf_sigalg f =? 11) && (length (lf_exts f) =? 1)%nat
+      | None => false
+      end
+  | None => false
+  end.
+Lemma ex_crl_builds : ex_crl_check = true.
+Proof. vm_compute. reflexivity. Qed.
